@@ -48,6 +48,24 @@ instance : BEq Value := ⟨beq⟩
 
 end Value
 
+mutual
+/-- number of nodes plus string bytes of a value: an upper bound for any nesting reachable from it. -/
+def Value.size : Value → Nat
+  | .bytes b => b.length + 1
+  | .text b => b.length + 1
+  | .tag _ v => Value.size v + 1
+  | .array xs => Value.sizeL xs + 1
+  | .map kvs => Value.sizeP kvs + 1
+  | _ => 1
+def Value.sizeL : List Value → Nat
+  | [] => 0
+  | x :: xs => Value.size x + Value.sizeL xs
+def Value.sizeP : List (Value × Value) → Nat
+  | [] => 0
+  | (k, v) :: kvs => Value.size k + Value.size v + Value.sizeP kvs
+end
+
+
 namespace Cbor
 
 /-- CBOR head: major type `m` (0..7) with argument `n`, shortest form (ciborium always emits it). -/
